@@ -331,10 +331,8 @@ def compare_ir(irA, irB, T, model, *, val_opts=None, timeout_ms=20000, seed=0, s
         out.n_monomials += len(pairs[-1][1]) + len(pairs[-1][2])
     out.encode_s = time.time() - t0
     out.n_assignments, out.n_vars = len(pairs), len(vars_)
-    if n_trivial:
-        out.note += f"{n_trivial} assignments with both sides structurally zero; "
     if not pairs:
-        out.status = "equal" if n_trivial else "skipped"
+        out.status = "skipped"
         return out
     v = check_equal(pairs, vars_, timeout_ms=timeout_ms, seed=seed)
     out.queries, out.solver_s, out.stage2 = 1, v.solver_s, int(v.stage == 2)
